@@ -324,3 +324,122 @@ func c18Glue(in *script.Interner) ([]*c18GlueCase, []c18Check) {
 	}
 	return cases, c18APIChecks()
 }
+
+// ---------------------------------------------------------------- API glue as observations for Corr.C18 (ReqReply/Api.v)
+
+type c18APICase struct {
+	Kind     string `json:"kind"` // "v" NewPubSubBackend validation, "l" SendWithReplies exits
+	Flags    []bool `json:"flags,omitempty"`
+	Accepted bool   `json:"accepted"`
+	Hook     bool   `json:"hook"`
+	In       []bool `json:"in,omitempty"`  // subscriber constructor ok, subscribe topic ok, Subscribe ok, command bus ok
+	Obs      []bool `json:"obs,omitempty"` // error, channel non-nil, cancel func non-nil, Subscribe context ended, reply channel closed
+	Hooks    int    `json:"hooks"`
+}
+
+func c18APICases() []c18APICase {
+	var out []c18APICase
+	// every subset of the five required parts
+	for m := 0; m < 32; m++ {
+		f := []bool{m&1 != 0, m&2 != 0, m&4 != 0, m&8 != 0, m&16 != 0}
+		c := requestreply.PubSubBackendConfig{}
+		if f[0] {
+			c.Publisher = &script.Publisher{}
+		}
+		if f[1] {
+			c.SubscriberConstructor = func(requestreply.PubSubBackendSubscribeParams) (message.Subscriber, error) {
+				return script.NewSubscriber(true), nil
+			}
+		}
+		if f[2] {
+			c.GeneratePublishTopic = func(requestreply.PubSubBackendPublishParams) (string, error) { return "t", nil }
+		}
+		if f[3] {
+			c.GenerateSubscribeTopic = func(requestreply.PubSubBackendSubscribeParams) (string, error) { return "t", nil }
+		}
+		var mar requestreply.BackendPubsubMarshaler[c18Res]
+		if f[4] {
+			mar = requestreply.BackendPubsubJSONMarshaler[c18Res]{}
+		}
+		be, err := requestreply.NewPubSubBackend[c18Res](c, mar)
+		out = append(out, c18APICase{Kind: "v", Flags: f, Accepted: err == nil && be != nil})
+	}
+	// the exits of SendWithReplies that do not hand out a channel
+	for _, hook := range []bool{true, false} {
+		for _, in := range [][]bool{{false, true, true, true}, {true, false, true, true}, {true, true, false, true}, {true, true, true, false}} {
+			hooks := 0
+			var subCtx context.Context
+			var lch <-chan requestreply.Reply[c18Res]
+			c := requestreply.PubSubBackendConfig{
+				Publisher: &script.Publisher{},
+				Logger:    watermill.NopLogger{},
+				SubscriberConstructor: func(requestreply.PubSubBackendSubscribeParams) (message.Subscriber, error) {
+					if !in[0] {
+						return nil, errors.New("no subscriber")
+					}
+					if !in[2] {
+						return &c18FailSub{}, nil
+					}
+					return &c18CtxSub{inner: script.NewSubscriber(true), got: &subCtx}, nil
+				},
+				GenerateSubscribeTopic: func(requestreply.PubSubBackendSubscribeParams) (string, error) {
+					if !in[1] {
+						return "", errors.New("no topic")
+					}
+					return "t", nil
+				},
+				GeneratePublishTopic: func(requestreply.PubSubBackendPublishParams) (string, error) { return "t", nil },
+			}
+			var fs *c18FailSub
+			if !in[2] {
+				fs = &c18FailSub{}
+				c.SubscriberConstructor = func(requestreply.PubSubBackendSubscribeParams) (message.Subscriber, error) { return fs, nil }
+			}
+			if hook {
+				c.OnListenForReplyFinished = func(context.Context, requestreply.PubSubBackendSubscribeParams) { hooks++ }
+			}
+			be, _ := requestreply.NewPubSubBackend[c18Res](c, requestreply.BackendPubsubJSONMarshaler[c18Res]{})
+			bus := c18NopBus{}
+			if !in[3] {
+				bus.err = errors.New("bus down")
+			}
+			ch, cancel, err := requestreply.SendWithReplies[c18Res](context.Background(), bus, c18ChanGrab{PubSubBackend: be, got: &lch}, &c18Cmd{ID: "x"})
+			closed := false
+			deadline := time.After(10 * time.Second)
+		wait:
+			for lch != nil {
+				select {
+				case _, ok := <-lch:
+					if !ok {
+						closed = true
+						break wait
+					}
+				case <-deadline:
+					break wait
+				}
+			}
+			time.Sleep(5 * time.Millisecond) // the finished hook runs right after the close
+			if fs != nil {
+				subCtx = fs.ctx
+			}
+			out = append(out, c18APICase{Kind: "l", Hook: hook, In: in,
+				Obs:   []bool{err != nil, ch != nil, cancel != nil, subCtx != nil && subCtx.Err() != nil, closed},
+				Hooks: hooks})
+			if cancel != nil {
+				cancel()
+			}
+		}
+	}
+	return out
+}
+
+type c18CtxSub struct {
+	inner message.Subscriber
+	got   *context.Context
+}
+
+func (s *c18CtxSub) Subscribe(ctx context.Context, topic string) (<-chan *message.Message, error) {
+	*s.got = ctx
+	return s.inner.Subscribe(ctx, topic)
+}
+func (s *c18CtxSub) Close() error { return s.inner.Close() }
